@@ -420,6 +420,9 @@ func (p *Program) callEffects(u *Universe, c *ssa.CallCommon, caller *ssa.Functi
 		return ce2
 	}
 	p.counterComps(u, FuncKey(fn), ce.comps)
+	for k := range p.modelGhosts(u, fn) {
+		ce.comps[k] = true
+	}
 	if len(fn.Blocks) > 0 {
 		e := p.summary(u, fn)
 		for k := range e.comps {
@@ -608,3 +611,21 @@ func (p *Program) mutableGlobals() map[string]bool {
 	return mutGlobals
 }
 
+
+// modelGhosts: the ghost components that model fn's package, when fn is a
+// function of a dependency (not of /repo) that has no contract of its own.
+func (p *Program) modelGhosts(u *Universe, fn *ssa.Function) map[string]bool {
+	if fn == nil || fn.Pkg == nil || p.InRepo(fn.Pkg.Pkg.Path()) {
+		return nil
+	}
+	var out map[string]bool
+	for gh, pk := range p.Specs.GhostPkg {
+		if pk != "" && pk == fn.Pkg.Pkg.Path() {
+			if out == nil {
+				out = map[string]bool{}
+			}
+			out[u.GhostComp(gh, p.Specs.Ghosts[gh])] = true
+		}
+	}
+	return out
+}
